@@ -258,6 +258,17 @@ def _layout_copy(v):
     return np.array(v, order="K", copy=True)
 
 
+def _strip(o, depth=0):
+    """the operand without unyt: arrays as bare ndarrays (0-d ones stay 0-d arrays: NumPy casts those by its array path), containers kept"""
+    if isinstance(o, np.ndarray):
+        return nd(o)
+    if isinstance(o, list) and depth < 4:
+        return [_strip(e, depth + 1) for e in o]
+    if type(o) is tuple and depth < 4:
+        return tuple(_strip(e, depth + 1) for e in o)
+    return o
+
+
 def func_name(func):
     mod = getattr(func, "__module__", "") or ""
     name = getattr(func, "__name__", repr(func))
@@ -304,6 +315,12 @@ class Passive(taps.Observer):
         #                       the current call that carries a unit written in a non-reduced compound spelling; its comparison is recorded
         #                       under the sub-monitor 'spelled-operand' with those three as cell coordinates (never in keys)
         self.ro_layout = None  # layout name of the read-only target of the current call, declared by an active driver (cell coordinate only)
+        self.datadep = None   # (object, in-place family, data class, carrier, policy) declared by an active driver: the in-place target (or, for a
+        #                       copying call, the input) of the current call whose DATA are the swept dimension (out-of-domain magnitudes, IEEE
+        #                       specials, values at the edge of the formula's domain); its comparison is recorded under the sub-monitor
+        #                       'data-class-target' / 'data-class-input' with those as cell coordinates (never in keys)
+        self.strict = False   # the current call runs under the caller's strict floating-point policy (np.errstate(all="raise"), RuntimeWarning
+        #                       as error): the observer's own arithmetic is shielded from it, the NumPy-alone replay runs under it
         self._active_inplace = 0
         self._tool = None
         if raise_sites:
@@ -518,7 +535,18 @@ class Passive(taps.Observer):
                             not (vu.dimensions == 1 and vu.base_value == 1.0):   # a plain dimensionless value is taken as a bare number (DESIGN 4.12)
                         v = v.to(u)          # the copying conversion the property refers to
                     tmp = nd(cself)
-                    tmp[citem] = np.asarray(v)
+                    va = np.asarray(v)
+                    if tmp.dtype.kind in "iu" and va.dtype.kind in "fciu" and va.dtype != tmp.dtype:
+                        # a value the integer target cannot hold (NaN, +-inf, beyond its range) is cast in an implementation-defined way that
+                        # differs between NumPy's scalar and array paths: no copying numbers to compare with
+                        ii = np.iinfo(tmp.dtype)
+                        re_ = va.real if va.dtype.kind == "c" else va
+                        with np.errstate(all="ignore"):
+                            fits = (re_ >= ii.min) & (re_ <= ii.max) if va.dtype.kind in "iu" else (np.isfinite(re_) & (re_ > float(ii.min) - 1) & (re_ < float(ii.max) + 1))
+                        if not np.all(fits):
+                            self._count("twin-not-comparable:value-outside-integer-target-range")
+                            return None
+                    tmp[citem] = va
                     return [tmp]
                 twin.where = None
         else:   # copying, getitem, unitop
@@ -532,6 +560,14 @@ class Passive(taps.Observer):
 
     # ------------------------------------------------------------------ taps.Observer protocol
     def pre(self, ev):
+        if self.strict and not self.busy:
+            import warnings
+            with np.errstate(all="ignore"), warnings.catch_warnings():
+                warnings.simplefilter("ignore")
+                return self._pre(ev)
+        return self._pre(ev)
+
+    def _pre(self, ev):
         if self.busy:
             return None
         self._count("tap:" + ev.name + (":nested" if (ev.depth or self.manual_depth) else ""))
@@ -551,6 +587,8 @@ class Passive(taps.Observer):
                     copies = (deep_copy(ev.args, memo, 0, promote), deep_copy(ev.kwargs, memo, 0, promote))
             if tg and self.differential and ev.kind in ("ufunc", "function"):
                 replay = self._numpy_replay(ev, tg)
+            elif (self.strict or self.datadep is not None) and self.differential and ev.kind == "setitem" and len(ev.args) == 2:
+                replay = self._numpy_replay_setitem(ev)
             tok = self.begin(op, ins, tg, twin, copies, replay)
         finally:
             self.busy = False
@@ -559,9 +597,21 @@ class Passive(taps.Observer):
     def post(self, ev, token, result, exc):
         if token is None or self.busy:
             return
+        if exc is not None and not isinstance(exc, Exception):
+            # the call was interrupted from outside (a driver's time limit, KeyboardInterrupt): not an outcome of the call, nothing to judge
+            if token[2]:
+                self._active_inplace -= 1
+            self._count("event:interrupted-not-judged")
+            return
         self.busy = True
         try:
-            self.end(token, exc)
+            if self.strict:
+                import warnings
+                with np.errstate(all="ignore"), warnings.catch_warnings():
+                    warnings.simplefilter("ignore")
+                    self.end(token, exc)
+            else:
+                self.end(token, exc)
         finally:
             self.busy = False
 
@@ -579,6 +629,15 @@ class Passive(taps.Observer):
         memo = {}
         cargs = deep_copy(ev.args, memo); ckw = deep_copy(ev.kwargs, memo)
         tcopies = [memo.get(id(o)) for _, o in tg]
+        variants = [(cargs, ckw, tcopies)]
+        promote = {id(o) for _, o in tg if nd(o).dtype.kind in "iu" and nd(o).dtype.itemsize > 1}
+        if promote and (self.strict or self.datadep is not None):
+            # second variant: integer targets already converted to the float type of the same item size, which is what the library documents
+            # it does to an integer target before operating on it (a failure of the loop itself - FloatingPointError under the caller's strict
+            # policy - then is NumPy's on the float buffer)
+            memo2 = {}
+            cargs2 = deep_copy(ev.args, memo2, 0, promote); ckw2 = deep_copy(ev.kwargs, memo2, 0, promote)
+            variants.append((cargs2, ckw2, [memo2.get(id(o)) for _, o in tg]))
 
         def strip(o, depth=0):
             if isinstance(o, np.ndarray):
@@ -591,16 +650,48 @@ class Passive(taps.Observer):
                 return {k: strip(e, depth + 1) for k, e in o.items()}
             return o
 
-        def replay():
-            before = [None if t is None else nd(t).copy() for t in tcopies]
+        def replay(ename=None):
+            res = (None, False)
+            for cargs, ckw, tcopies in variants:
+                before = [None if t is None else nd(t).copy() for t in tcopies]
+                try:
+                    if ev.kind == "ufunc":
+                        getattr(cargs[0], cargs[1])(*strip(cargs[2:]), **strip(ckw))
+                    else:
+                        cargs[0](*strip(cargs[2]), **strip(cargs[3]))
+                    res = (None, False)
+                except Exception as e:
+                    changed = any(t is not None and not _num_equal(nd(t), b) for t, b in zip(tcopies, before))
+                    res = (type(e).__name__, changed)
+                if ename is None or (res[0] == ename and res[1]):
+                    break
+            return res
+        return replay
+
+    def _numpy_replay_setitem(self, ev):
+        """closure replaying an item assignment on stripped pre-call copies (bare ndarray target, bare value): tells whether NumPy alone,
+        under the caller's strict floating-point policy, also raises after having written the element (cast overflow / invalid cast)"""
+        memo = {}
+        ct = deep_copy(ev.self_, memo)
+        citem, cval = deep_copy(ev.args, memo)
+
+        def replay(ename=None):
+            t = nd(ct)
+            before = t.copy()
+            v = cval
+            u = getattr(ct, "units", None)
+            vu = getattr(v, "units", None)
+            if vu is not None and u is not None and isinstance(v, np.ndarray) and not (vu.dimensions == 1 and vu.base_value == 1.0):
+                # the value as the copying conversion delivers it (same rule as the twin of clause (c)); evaluated under the lenient policy
+                try:
+                    with np.errstate(all="ignore"):
+                        v = v.to(u)
+                except Exception:
+                    return None, False
             try:
-                if ev.kind == "ufunc":
-                    getattr(cargs[0], cargs[1])(*strip(cargs[2:]), **strip(ckw))
-                else:
-                    cargs[0](*strip(cargs[2]), **strip(cargs[3]))
+                t[citem] = _strip(v)
             except Exception as e:
-                changed = any(t is not None and not _num_equal(nd(t), b) for t, b in zip(tcopies, before))
-                return type(e).__name__, changed
+                return type(e).__name__, not _num_equal(t, before)
             return None, False
         return replay
 
@@ -669,6 +760,9 @@ class Passive(taps.Observer):
         spl = self.spelled
         if spl is not None and s.obj is spl[0]:
             cell = ("spelled-operand", op, s.path, spl[1], spl[2], spl[3], outcome)
+        dd = self.datadep
+        if dd is not None and s.obj is dd[0]:
+            cell = ("data-class-input", op, s.path, dd[1], dd[2], dd[4], outcome)
         if isinstance(s, _U):
             now = usnap(s.obj)
             if not usnap_eq(s.us, now):
@@ -736,6 +830,9 @@ class Passive(taps.Observer):
             cell = ("spelled-operand", op, "target", spl[1], spl[2], spl[3], "raised")
         elif s.ro:
             cell = ("read-only-target", op, ename, s.ocls, getattr(self, "ro_layout", None))
+        dd = getattr(self, "datadep", None)
+        if dd is not None and x is dd[0]:
+            cell = ("data-class-target", op, dd[1], dd[2], dd[4], "raised", ename)
         bad = None
         u = getattr(x, "units", None)
         if s.us is not None or getattr(u, "is_Unit", False):
@@ -754,6 +851,11 @@ class Passive(taps.Observer):
             else:
                 if _num_equal(now, s.vals):
                     self._note(f"failed-call-relabelled-dtype:{op}:{s.dtype}->{now.dtype}")
+                elif s.vals.dtype.kind in "iu" and now.dtype.kind == "f" and now.dtype.itemsize == s.vals.dtype.itemsize and _num_equal(now, s.vals.astype(now.dtype)):
+                    # the same relabelling, on integers the float type of the same size cannot hold exactly (2**31-1 -> 2147483648.0): the numbers are
+                    # those of the documented conversion of an integer target, rounded by it
+                    self._note(f"failed-call-relabelled-dtype:{op}:{s.dtype}->{now.dtype}")
+                    self._count("failed-call-relabelled-dtype-rounded")
                 else:
                     bad = ("data", _short(s.vals), _short(now))
         ok_out = self._check_outside(op, s, "failed-outside-changed", ename)
@@ -761,15 +863,21 @@ class Passive(taps.Observer):
             try:
                 import warnings
                 with warnings.catch_warnings():
-                    warnings.simplefilter("ignore")
-                    with np.errstate(all="ignore"):
-                        rname, rchanged = self._replay()
+                    # NumPy alone under the caller's floating-point policy
+                    if getattr(self, "strict", False):
+                        warnings.simplefilter("ignore")
+                        warnings.simplefilter("error", RuntimeWarning)
+                    else:
+                        warnings.simplefilter("ignore")
+                    with np.errstate(all="raise" if getattr(self, "strict", False) else "ignore"):
+                        rname, rchanged = self._replay(ename)
             except Exception:
                 rname, rchanged = None, False
             if rname == ename and rchanged:
                 # NumPy itself, on bare arrays, raises this exception after having written into out=: not unyt's doing
                 self._note(f"numpy-alone-writes-out-then-raises:{op}:{ename}")
-                self._ok(("failed-target-numpy-semantics", op, ename, s.ocls))
+                self._ok(("failed-target-numpy-semantics", op, ename, s.ocls) if not (dd is not None and x is dd[0]) else
+                         ("data-class-target", op, dd[1], dd[2], dd[4], "raised", ename + "/numpy-alone-does-the-same"))
                 return
         if bad is not None and s.ro:
             # what happens to a target the call may not write to is decided before the ufunc loop runs: one template per arity and
@@ -800,10 +908,13 @@ class Passive(taps.Observer):
             self._count("no-twin:" + op)
             return
         where = getattr(twin, "where", None)
+        dd = self.datadep
         for s, e in zip(snaps_tg, expected):
             now = nd(s.obj)
             ev_ = np.asarray(nd(e) if isinstance(e, np.ndarray) else e)
             cell = ("twin", op, s.ocls)
+            if dd is not None and s.obj is dd[0]:
+                cell = ("data-class-target", op, dd[1], dd[2], dd[4], "returned", "equals-copying")
             if ev_.shape != now.shape:
                 try:
                     ev_ = np.broadcast_to(ev_, now.shape)
@@ -833,19 +944,37 @@ class Passive(taps.Observer):
                     _w.simplefilter("ignore")
                     exp = ev_.astype(now.dtype, casting="unsafe")
             cmp_now = now
-            if where is not None:
+            fits_mask = None
+            if now.dtype.kind in "iu" and ev_.dtype.kind in "fciu" and ev_.shape == now.shape and ev_.dtype != now.dtype:
+                # a copying value the integer target cannot hold (NaN, +-inf, beyond its range) is cast in an implementation-defined way, which
+                # differs between NumPy's scalar and array paths: such positions are not compared
+                try:
+                    ii = np.iinfo(now.dtype)
+                    re_ = ev_.real if ev_.dtype.kind == "c" else ev_
+                    with np.errstate(all="ignore"):
+                        fits = (re_ >= ii.min) & (re_ <= ii.max) if ev_.dtype.kind in "iu" else (np.isfinite(re_) & (re_ > float(ii.min) - 1) & (re_ < float(ii.max) + 1))
+                    if not np.all(fits):
+                        self._count("twin-not-comparable:value-outside-integer-target-range", int(np.size(fits) - np.count_nonzero(fits)))
+                        fits_mask = fits
+                except Exception:
+                    pass
+            if where is None and fits_mask is not None:
+                exp = exp[fits_mask]; cmp_now = now[fits_mask]
+            elif where is not None:
                 # positions not selected by where= are undefined in the copying call: only selected positions are compared
                 try:
                     wm = np.broadcast_to(np.asarray(where, dtype=bool), now.shape)
                     if s.vals is not None and s.vals.shape == now.shape and not _num_equal(now[~wm], s.vals[~wm].astype(now.dtype, casting="unsafe")):
                         self._note(f"where-unselected-positions-written:{op}")
+                    if fits_mask is not None:
+                        wm = wm & fits_mask
                     exp = exp[wm]; cmp_now = now[wm]
                 except Exception:
                     self._count("twin-where-not-comparable")
                     continue
             if rescaled:
                 if _ulp_close(exp, cmp_now, 8):
-                    self._ok(("twin-quantity", op, s.ocls))
+                    self._ok(("twin-quantity", op, s.ocls) if not (dd is not None and s.obj is dd[0]) else ("data-class-target", op, dd[1], dd[2], dd[4], "returned", "twin-quantity"))
                 else:
                     self._violation(f"C18:{op}:differs-from-copying:quantity:{kclass(s.ocls)}",
                                     f"{op}: target holds {_short(cmp_now)} {tu0} but the corresponding copying call on the pre-call operands gives {_short(np.asarray(nd(e) if isinstance(e, np.ndarray) else e))} {eu0} (another quantity)",
@@ -861,14 +990,14 @@ class Passive(taps.Observer):
                     if ev_.dtype.kind == now.dtype.kind and now.dtype.kind in "fc" and max(_feps(ev_.dtype), _feps(now.dtype)) < 1e-4 \
                             and not _tolerant(op, now.dtype):      # accumulations in another precision are not comparable at all
                         if _ulp_close(exp, cmp_now, 4, max(_feps(ev_.dtype), _feps(now.dtype))):
-                            self._ok(("twin-cross-dtype", op, s.ocls))
+                            self._ok(("twin-cross-dtype", op, s.ocls) if not (dd is not None and s.obj is dd[0]) else ("data-class-target", op, dd[1], dd[2], dd[4], "returned", "twin-cross-dtype"))
                             continue
                     else:
                         self._count("twin-not-comparable:cross-kind-dtype")
                         continue
                 elif _tolerant(op, now.dtype) and _ulp_close(exp, cmp_now, 4):
                     # transcendental / reduction / BLAS loops are not bit-reproducible across memory layouts in NumPy itself
-                    self._ok(("twin-ulp", op, s.ocls))
+                    self._ok(("twin-ulp", op, s.ocls) if not (dd is not None and s.obj is dd[0]) else ("data-class-target", op, dd[1], dd[2], dd[4], "returned", "twin-ulp"))
                     continue
             now = cmp_now
             if exp.tobytes() == now.tobytes() or _num_equal(exp, now):
@@ -934,6 +1063,11 @@ class _Manual:
     def __exit__(self, et, ev, tb):
         o = self.obs
         o.manual_depth -= 1
+        if et is not None and not issubclass(et, Exception):
+            if self.tok[2]:
+                o._active_inplace -= 1
+            o._count("event:interrupted-not-judged")
+            return False
         o.busy = True
         try:
             o.end(self.tok, ev if (et is not None and issubclass(et, Exception)) else None)
